@@ -675,7 +675,7 @@ def gen_invocation(rng, world_state):
             spec["text"] = None   # built at execution (needs the mode)
         groups = common_options(rng, spec, env)
         if rng.random() < 0.7:
-            spec["max"] = rng.choice([1, 2, 3, 5, 10, 12, 0, 0, -1])
+            spec["max"] = rng.choice([1, 2, 3, 5, 10, 12, 0, 0, -1, 40, 60])
             groups.append(rng.choice([["--max=%d" % spec["max"]]]))
         r = rng.random()
         if r < 0.12:
@@ -1706,11 +1706,20 @@ class Sim(object):
         if spec["form"] == 1:
             ius = step.get("form1_interval_us")
         nominal = None
+        backwards = False
         if ius is None and spec["form"] == 3 and spec["interval_text"] in (
                 "P1M", "P3M", "P1Y"):
             # each point is the previous one plus the interval, by the
             # calendar rules (single-month steps clamp)
             nominal = cm.parse_designator_duration(spec["interval_text"])
+        elif ius is None and spec["form"] == 4 and spec["reps"] is None and (
+                spec["interval_text"] in ("P1M", "P3M", "P1Y")):
+            # counting back from the end point without a repetition count:
+            # each point is the previous one MINUS the interval (help 4.2,
+            # R/P1Y/2020), however many points are asked for
+            nominal = cm.parse_designator_duration(
+                "-" + spec["interval_text"])
+            backwards = nominal is not None
         pf = spec.get("pf")
         if (ius is None and nominal is None) or n["time"] is None:
             return
@@ -1735,6 +1744,8 @@ class Sim(object):
             off = zone_off
             t0 = cm.written_instant_us(w, mode, off)
             step_us = ius
+            if backwards:
+                self.count("probe.rec_backwards_nominal")
             if nominal is not None:
                 count = max(maxn, 0) if reps is None else min(
                     reps, max(maxn, 0))
@@ -1900,14 +1911,24 @@ def gen_hostzone(rng, index):
     zones = [list(z) for z in trace["zones"]]
     zones[0] = [west, west, 0]
     steps = []
+    dst_rule = index % 4 == 3
+    if dst_rule:
+        # a zone that defines daylight saving (standard +01:00, daylight
+        # +02:00, in effect February to November): the library is imported
+        # under a definition with altzone != timezone, and the flag then
+        # flips while the definition stays the same
+        zones[0] = [-3600, -7200, 1]
     for i, step in enumerate(trace["steps"]):
         steps.append(step)
         if i % 5 == 4:
             steps.append({"k": "pert", "act": ["tzset", 0]})
-            steps.append({"k": "pert", "act": ["dst", 0]})
+            steps.append({"k": "pert", "act": [
+                "dst", (i // 5) % 2 if dst_rule else 0]})
     trace.update(kind="hostzone", zones=zones, cur=0, isdst=0,
                  host_tz=kernel.posix_tz(
                      west, ["XST", "UTC", "GMT"][index % 3]), steps=steps)
+    if dst_rule:
+        trace.update(host_tz="XST-1XDT-2,J32/0,J334/0", host_dst_rule=True)
     return trace
 
 
